@@ -610,7 +610,11 @@ pub fn main(args: &[String]) -> i32 {
         for e in &harness_errors {
             eprintln!("HARNESS-ERROR {}", e);
         }
-        return 2;
+        // a confirmed, replayable violation stands on its own: the run is reported as a violation (exit 1);
+        // with nothing confirmed, a harness error means the check itself could not do its work (exit 2)
+        if n_viol == 0 {
+            return 2;
+        }
     }
     if n_viol > 0 {
         1
